@@ -73,21 +73,20 @@ impl ShardRouter {
     /// prevent stale metadata from overwriting fresher data.
     pub fn update_routing(&self, shard: ShardMetadata) {
         let shard_id = shard.shard_id.clone();
-        // Only update if the new generation is >= the cached generation
-        if let Some(existing) = self.cache.get(&shard_id) {
-            if shard.generation < existing.shard.generation {
+        // Only update if the new generation is >= the cached generation. The entry keeps the
+        // map's lock until it is written, so a concurrent newer update cannot slip in between.
+        let entry = self.cache.entry(shard_id);
+        if let dashmap::mapref::entry::Entry::Occupied(existing) = &entry {
+            if shard.generation < existing.get().shard.generation {
                 return; // Reject stale update
             }
         }
         #[cfg(feature = "verif-hooks")]
         crate::verif_hooks::sync_point("router.update_routing.after_check");
-        self.cache.insert(
-            shard_id,
-            RoutingEntry {
-                shard,
-                cached_at: Instant::now(),
-            },
-        );
+        entry.insert(RoutingEntry {
+            shard,
+            cached_at: Instant::now(),
+        });
     }
 
     /// Invalidate routing for a shard
